@@ -18,6 +18,23 @@ int main(int argc, char **argv)
   std::string expect = std::string(dir) + "world_builder_declarations.schema.json";
   std::ifstream f(expect);
   if (f.good()) printf("OUTDIR ok %s\n", expect.c_str()); else { printf("OUTDIR missing %s\n", expect.c_str()); bad = 1; }
+  // the other argument combinations: a true flag with a null directory writes into the working directory (like
+  // World(file, true, "", seed)); a false flag writes nothing even when a directory is given
+  {
+    std::remove("world_builder_declarations.schema.json");
+    void *h2 = nullptr; bool yes = true;
+    try { create_world(&h2, file, &yes, nullptr, seed); release_world(h2); }
+    catch (std::exception &e) { printf("OUTDIR create_world(flag=true, dir=NULL) threw: %.200s\n", e.what()); return 1; }
+    std::ifstream f2("world_builder_declarations.schema.json");
+    if (f2.good()) printf("OUTDIR ok (flag=true, dir=NULL -> working directory)\n");
+    else { printf("OUTDIR missing: create_world(flag=true, dir=NULL) wrote no declaration files into the working directory, World(file,true,\"\",seed) does\n"); bad = 1; }
+    std::string dir3 = std::string(dir) + "unused/";
+    void *h3 = nullptr; bool no = false;
+    try { create_world(&h3, file, &no, dir3.c_str(), seed); release_world(h3); }
+    catch (std::exception &e) { printf("OUTDIR create_world(flag=false) threw: %.200s\n", e.what()); return 1; }
+    std::ifstream f3(dir3 + "world_builder_declarations.schema.json");
+    if (f3.good()) { printf("OUTDIR unexpected: create_world(flag=false, dir) wrote declaration files\n"); bad = 1; }
+  }
   WorldBuilder::World w(file, false, "", seed);
   bool same = true;
   const unsigned int reqs[4][3][3] = {{{1,0,0},{2,0,0},{4,0,0}}, {{3,0,1},{5,0,0},{2,1,0}}, {{3,1,2},{1,0,0},{3,0,1}}, {{5,0,0},{3,0,2},{4,0,0}}};
